@@ -4,7 +4,7 @@ from kv import Case, xn, xl, xlist, xbool
 
 ID = "C10"
 MODULE = "C10"
-IMPORTS = "Bytes Shutdown ShutdownProofs"
+IMPORTS = "Bytes Shutdown ShutdownProofs ShutdownBoot ShutdownBootProofs"
 PROFILES = ("dev",)
 FEATURES = ("hooks",)
 IMPL_SHARDS = 8
@@ -33,6 +33,16 @@ THEOREMS = [
     ("no_hang_today_late_waker_refuted",
      "exists s, reachable today s /\\ requested s = true /\\ quiescent today s /\\ finished s = true /\\ "
      "forallb l_exited (ls s) = false"),
+    ("boot_refines",
+     "forall nl nc nh nw w, breachable nl nc nh nw w -> reachable repaired (flat w)"),
+    ("booted_reachable",
+     "forall nl nc nh nw w, breachable nl nc nh nw w -> b_done w = true -> reachable repaired (b_in w)"),
+    ("startup_then_shutdown",
+     "forall nl nc nh nw w sched s, breachable nl nc nh nw w -> b_done w = true -> run repaired (b_in w) sched = Some s -> "
+     "(finished s = true -> all_done s = true /\\ forallb (fun l => negb (l_bound l)) (ls s) = true) /\\ "
+     "(requested s = true -> quiescent repaired s -> completed s = true)"),
+    ("startup_not_requested",
+     "forall nl nc nh nw w, breachable nl nc nh nw w -> requested (b_in w) = false"),
 ]
 
 # ----------------------------------------------------------------------------------------------
